@@ -78,6 +78,58 @@ func registeredBuiltins(p *Prog) (map[string]types.Type, []string) {
 			recOf(elem).typ = mi.X.Type()
 		}
 	})
+	collect := func(in ssa.Instruction) {
+		st, ok := in.(*ssa.Store)
+		if !ok {
+			return
+		}
+		fa, ok := st.Addr.(*ssa.FieldAddr)
+		if !ok {
+			return
+		}
+		ia, ok := fa.X.(*ssa.IndexAddr)
+		if !ok {
+			return
+		}
+		if k, ok := st.Val.(*ssa.Const); ok && k.Value != nil && k.Value.Kind().String() == "String" {
+			recOf(ia).name, _ = unquoteGo(k.Value.ExactString())
+		}
+		if mi, ok := st.Val.(*ssa.MakeInterface); ok {
+			recOf(ia).typ = mi.X.Type()
+		}
+	}
+	// a package-level table: the records are stored by the package initialiser into the array the global slices
+	globalTables := map[*ssa.Global]bool{}
+	instrsOf(fn, func(in ssa.Instruction) {
+		if u, ok := in.(*ssa.UnOp); ok {
+			if g, ok := u.X.(*ssa.Global); ok {
+				if _, isSlice := derefT(g.Type()).Underlying().(*types.Slice); isSlice {
+					globalTables[g] = true
+				}
+			}
+		}
+	})
+	if init := fn.Pkg.Func("init"); init != nil && len(globalTables) > 0 {
+		arrays := map[ssa.Value]bool{}
+		instrsOf(init, func(in ssa.Instruction) {
+			if st, ok := in.(*ssa.Store); ok {
+				if g, ok := st.Addr.(*ssa.Global); ok && globalTables[g] {
+					if sl, ok := st.Val.(*ssa.Slice); ok {
+						arrays[sl.X] = true
+					}
+				}
+			}
+		})
+		instrsOf(init, func(in ssa.Instruction) {
+			if st, ok := in.(*ssa.Store); ok {
+				if fa, ok := st.Addr.(*ssa.FieldAddr); ok {
+					if ia, ok := fa.X.(*ssa.IndexAddr); ok && arrays[ia.X] {
+						collect(in)
+					}
+				}
+			}
+		})
+	}
 	tableDefine := false
 	instrsOf(fn, func(in ssa.Instruction) {
 		call, ok := in.(*ssa.Call)
@@ -245,6 +297,11 @@ func checkC17(p *Prog, l *Ledger) {
 		case "min", "max":
 			checkMinMax(p, l, n, tag, callFn, m)
 		}
+	}
+	// the fixed-arity built-ins rely on the call clause comparing the argument count with Arity() for every callee —
+	// built-in or not — before invoking it (rule shared with C04)
+	if cs := getClauses(p); cs.account(l) {
+		l.As(map[string]string{"C04/S3-": "C17/S3-misuse/call-clause/"}, func() { checkCallProtocol(cs, l) })
 	}
 }
 
